@@ -1,5 +1,6 @@
 import TucanProofs.Lemmas.Pipeline
 import TucanProofs.Lemmas.OracleNonempty
+import TucanProofs.Lemmas.ClassesTotal
 import TucanProofs.Examples
 /-!
 # C04 — canonical atom numbering: the same molecule gives the same labelled graph
@@ -40,6 +41,16 @@ theorem C04_nodes_and_edges (O : CanonOracle) (f : Nat → Nat) (g g' c c' r r' 
   · intro i j hi hj
     have := isoC.adj_iff (canonical_graph_invariant O iso hchem hw hs hw' hs' h h').2.2.1 (hmem i hi) (hmem j hj)
     simpa using this.symm
+
+/-- **The partition class is there**: every label `i` of the canonical graph is the renamed copy of an input atom and
+carries that atom's class from the refinement — so the equality of classes in `C04_nodes_and_edges` is an equality of
+classes that are set, not of two absent values. -/
+theorem C04_classes_set (order : Graph → List Nat)
+    (hperm : ∀ r : Graph, r.WF → (order r).Perm r.labels)
+    (g c r : Graph) (k : Nat) (hw : g.WF) (hs : g.Simple)
+    (h : canonicalizeWith g order = .ok (c, r, k)) :
+    ∀ i ∈ c.labels, ∃ a ∈ g.labels, ∃ q : Int, partOf? r a = some q ∧ partOf? c i = some q :=
+  canonical_classes_total order hperm g c r k hw hs h
 
 theorem C04_oracle_contract_inhabited : Nonempty CanonOracle := CanonOracle.nonempty
 
